@@ -149,3 +149,18 @@ def snapshot_diff(a, b):
         elif a[k] != b[k]:
             msgs.append(f"modified {k}")
     return msgs
+
+
+def draw_examples(strategy, n, seedval):
+    """n examples of a strategy, a pure function of seedval (no shrinking, no database)."""
+    from hypothesis import HealthCheck, Phase, given, seed, settings
+    out = []
+
+    @seed(seedval)
+    @settings(max_examples=n, database=None, deadline=None, suppress_health_check=list(HealthCheck),
+              phases=[Phase.generate])
+    @given(strategy)
+    def collect(x):
+        out.append(x)
+    collect()
+    return out[:n]
